@@ -168,3 +168,21 @@ def compare_overapprox(got_ctxs, exp, in_progress):
         if not any(c.obj is m for m in in_progress):
             return "extra entry %r is not a manager this frame is entering or exiting" % (c.obj,)
     return None
+
+
+def value_signature(stack, depth=0):
+    """identity-and-flags signature of a whole result tree (frames, contexts, inner stacks, children): what a
+    result *is*, to be compared with itself later - results are values and must not change when a later
+    extraction runs"""
+    if depth > 12:
+        return ("...",)
+
+    def ctx(c):
+        kids = []
+        for ch in c.children:
+            kids.append(ctx(ch) if isinstance(ch, stackscope.Context) else value_signature(ch, depth + 1))
+        return (id(c.obj), c.is_async, c.is_exiting, c.varname, c.start_line, c.description, c.hide,
+                value_signature(c.inner_stack, depth + 1) if c.inner_stack is not None else None, tuple(kids))
+
+    return (tuple((id(f.pyframe), f.lineno, f.hide, f.hide_line, tuple(ctx(c) for c in f.contexts)) for f in stack.frames),
+            id(stack.leaf) if stack.leaf is not None else None, id(stack.error) if stack.error is not None else None)
